@@ -51,7 +51,7 @@ def cases(draw):
         "images": [{"lines": 1, "pixels": 1}],
         "leader": leader,
         "policy": draw(st.sampled_from(["decoy", "decoy", "blank"])),
-        "enum_cycle": draw(st.integers(0, 11)),
+        "enum_cycle": draw(st.one_of(st.integers(0, 11), st.integers(0, 11), st.none())),  # None: random codes, some outside the tables
         "vseed": draw(st.integers(0, 2**32 - 1)),
         # the n-th read of the leader file fails once with OSError (None: no fault)
         "io_error": draw(st.sampled_from([None, None, None, None, None, 1, 2, 3, 5, 8])),
